@@ -272,7 +272,17 @@ class CompleteStageHandler(
                     # flight drive the parent through their own completion
                     # messages; a CompleteStage arriving meanwhile is stale or
                     # redelivered and must not re-plan or finalize the stage.
-                    in_flight_children = [s for s in stage.first_after_stages() if not s.status.is_complete]
+                    # A NOT_STARTED child is only "in flight" when this handler planned it
+                    # for this failure (its StartStage was pushed in the same commit as the
+                    # _on_failure_planned flag). A PRE-DECLARED after-stage of a stage whose
+                    # core work failed is never started: counting it here consumed the
+                    # CompleteStage and left the stage RUNNING for good.
+                    on_failure_planned = bool(stage.context.get("_on_failure_planned", False))
+                    in_flight_children = [
+                        s
+                        for s in stage.first_after_stages()
+                        if not s.status.is_complete and (s.status != WorkflowStatus.NOT_STARTED or on_failure_planned)
+                    ]
                     if in_flight_children:
                         if message.message_id:
                             with self.repository.transaction(self.queue) as txn:
